@@ -38,6 +38,107 @@ REVIEWED = {
 }
 
 
+# (function, shape of A in RLC_CEIL(A, B) = (A - 1) / B + 1) -> why A >= 1
+_ORD = "n is the bit length of the group order handed in by the caller of this static helper / documented as such: at least 1"
+REVIEWED_CEIL = {
+    ("ep2_mul_reg_imp", "$"): _ORD, ("ep3_mul_reg_imp", "$"): _ORD, ("ep4_mul_reg_imp", "$"): _ORD, ("ep8_mul_reg_imp", "$"): _ORD,
+    ("bn_rec_reg", "$"): "documented: n is the bit length of the group order", ("bn_rec_reg", "$*($-1)"): "l >= 1 from the line above and w >= 2",
+    ("bn_rec_sac", "$"): "documented: n is the bit length of the group order",
+    ("rand_hash", "$"): "static helper; each of its four callers passes len = (RLC_RAND_SIZE - 1) / 2, a positive constant held in a local",
+    ("bn_rec_rtnaf", "$+2"): "m + 2 >= 2",
+    ("bn_read_str", "$*util_bits_dig($)"): "len = 0 wraps, bn_grow then refuses the absurd digit count with ERR_NO_PRECI: a spurious error for the empty string, no access (observation)",
+}
+
+
+def ceil_sites(fn, e):
+    """[A] for every RLC_CEIL(A, B) = ((A - 1) / B) + 1 in the element whose subtraction is unsigned"""
+    out = []
+    for sub in ir.walk(fn, e):
+        if sub[0] == "b" and sub[1] == "+":
+            r, l = ir.peel(fn, sub[3]), ir.peel(fn, sub[2])
+            if isinstance(r, list) and r[0] == "i" and r[1] == 1 and isinstance(l, list) and l[0] == "b" and l[1] == "/":
+                a = ir.peel(fn, l[2])
+                if isinstance(a, list) and a[0] == "b" and a[1] == "-" and len(a) > 4 and a[4] == "u":
+                    o = ir.peel(fn, a[3])
+                    if isinstance(o, list) and o[0] == "i" and o[1] == 1:
+                        out.append(a[2])
+    return out
+
+
+def rule_ceil_zero(ctx, prog, chk):
+    """CEIL-ZERO: RLC_CEIL(A, B) is ((A) - 1) / (B) + 1; for an unsigned A that can be zero the subtraction wraps and the
+    "number of blocks" is 2^64 / B + 1, truncated to whatever it is assigned to (0 for B = 32 and 64 by coincidence,
+    1431655766 for B = 48).  A is positive by the facts in force, is the bit length of a group order fetched in the function,
+    is a positive constant at every call of a static helper, or is reviewed"""
+    n = 0
+    used = set()
+    callers = {}
+    for f in prog.all:
+        for el in f.all_elements():
+            for c in ir.calls_in(f, el.e):
+                if isinstance(c[1], str):
+                    callers.setdefault(c[1], []).append((f, c))
+    for fn in prog.all:
+        sites = [(el, A) for el in fn.all_elements() for A in ceil_sites(fn, el.e)]
+        if not sites:
+            continue
+        g = ctx.xcfg(prog, fn)
+        F = Facts(prog, g, mark_thrown=True)
+        ords = set()
+        for el in fn.all_elements():
+            for c in ir.calls_in(fn, el.e):
+                if c[1] and re.search(r"_curve_get_ord$|^pc_get_ord$", c[1]) and c[2]:
+                    ords.add(key(fn, c[2][0]))
+        names = sorted(set(v["n"] for v in fn.vars if v.get("n")), key=len, reverse=True)
+        seen = set()
+        for nd in g.nodes:
+            if nd.kind != "el" or nd.proto:
+                continue
+            st = F.IN.get(nd)
+            if st is None or st is engines.UNIVERSE:
+                continue
+            for el, A in sites:
+                if nd.el is not el:
+                    continue
+                ak = key(fn, A)
+                txt = re.sub(r"\s+", "", fn.fmt(A))
+                if txt.startswith("(") and txt.endswith(")"):
+                    txt = txt[1:-1]
+                if (txt, nd.line()) in seen:
+                    continue
+                seen.add((txt, nd.line()))
+                n += 1
+                shape = re.sub(r"\b(%s)\b(?!\()" % "|".join(re.escape(x) for x in names), "$", txt) if names else txt
+                base = fn.name.split("__")[-1]
+                ok = any(a[0] == "cmp" and a[1] == ak and (engines.entails(a[2], a[3], ">", 0) or engines.entails(a[2], a[3], "!=", 0)) for a in st)
+                why = "A > 0 in force"
+                if not ok and isinstance(ak, tuple) and ak[0] == "c" and ak[1] == "bn_bits" and len(ak[2]) == 1 and ak[2][0] in ords:
+                    ok, why = True, "bit length of the group order fetched in this function"
+                if not ok and isinstance(ak, tuple) and ak[0] == "i" and ak[1] > 0:
+                    ok, why = True, "positive constant"
+                if not ok and fn.static and isinstance(ak, tuple) and ak[0] == "v" and ak[1] in fn.params:
+                    pos = fn.params.index(ak[1])
+                    cs = callers.get(fn.name, [])
+                    def pos_const(f, e):
+                        pl = extent.poly(key(f, e))
+                        return pl is not None and pl.is_const() and pl.const_value() > 0
+                    if cs and all(len(c[2]) > pos and pos_const(f, c[2][pos]) for f, c in cs):
+                        ok, why = True, "a positive constant at every call of this static helper"
+                if ok:
+                    chk.ok("CEIL-ZERO", fn, txt, why, line=nd.line())
+                elif (base, shape) in REVIEWED_CEIL:
+                    used.add((base, shape))
+                    chk.ok("CEIL-ZERO", fn, txt, "reviewed: " + REVIEWED_CEIL[(base, shape)], line=nd.line())
+                else:
+                    chk.fail("CEIL-ZERO", fn, txt, "RLC_CEIL(%s, ..) subtracts one from an unsigned quantity that nothing in force makes positive: for zero the block count wraps to "
+                             "2^64 / B + 1 (truncated), and what it bounds runs off the buffer or does not end" % fn.fmt(A)[:30], line=nd.line())
+    if prog.library is None:
+        for k in REVIEWED_CEIL:
+            if k not in used and prog.get(k[0]) is not None:
+                raise AnalysisBroken("CEIL-ZERO: the reviewed site %s `%s` no longer exists; remove the entry" % k)
+    return n
+
+
 def subtractions(fn, cond):
     """unsigned subtractions that are operands of the relational comparison `cond`"""
     c = ir.peel(fn, cond)
